@@ -491,7 +491,7 @@ static void body(int me)
         intent("d", "mbox=" + S(mboxes[o.a]->get_impl()->id_));
         auto c   = mboxes[o.a]->put_init(new long(o.b), 100);
         c->detach();
-        A.result = "comm=" + S(comm_id(c));
+        A.result = "-"; // the comm of a detached send is not accessible to the program any more
         break;
       }
       case 'r': {
@@ -618,8 +618,8 @@ static void body(int me)
         break;
       case 'X':
         epilogue();
-        A.done   = true;
-        A.intent = "pc=" + S(A.pc) + " op=X";
+        A.done = true;
+        intent("X", "");
         sg4::this_actor::exit();
         break;
       default:
